@@ -38,15 +38,15 @@ def run(ctx):
         res.add_sample({"ping_timeout,pong_timeout": o["config"], "harness_lag_s": o["lag"], "peers": o["peers"][:4]})
     res.extra["configurations"] = configs
     res.extra["per_config"] = [{"config": o["config"], "lag": o.get("lag"), "peers": o["peers"]} for o in outs]
-    res.rule = ("real time, (ping_timeout, pong_timeout) in %s (includes pong >= ping); 15 clients per configuration registered at "
+    res.rule = ("real time, (ping_timeout, pong_timeout) in %s (includes pong >= ping); 17 clients per configuration registered at "
                 "staggered phases with response patterns always / never / stops after 2 / late but within pong_timeout / later than ping_timeout but within pong_timeout / later "
-                "than pong_timeout / wrong token / unsolicited PONGs / silent on PING but chatting / registering later than ping_timeout after connecting, then answering (or then silent) / re-negotiating capabilities (CAP LS, REQ, END) in mid-session while answering / one late PONG after the second PING (pong_timeout > ping_timeout), then silence; every client also sends its "
+                "than pong_timeout / wrong token / unsolicited PONGs / silent on PING but chatting / registering later than ping_timeout after connecting, then answering (or then silent) / re-negotiating capabilities (CAP LS, REQ, END) in mid-session while answering / one late PONG after the second PING (pong_timeout > ping_timeout), then silence / a capability negotiation opened in mid-session and never closed (CAP LS or REQ without END), then silent or answering; every client also sends its "
                 "own PINGs; rules on the timestamped socket events: own PING answered by PONG with the same token, a client that "
                 "answers every server PING is never dropped during >= 4 cycles, at least floor(T/ping)-1 server PINGs (bounded "
                 "progress), a silent client gets ERROR+EOF no later than first unanswered PING + pong_timeout + slack (1 s + "
                 "measured harness lag; a run whose lag exceeds 0.5 s is inconclusive), clean-up afterwards (snapshot, WHOWAS); "
                 "distinct = (ping, pong, behaviour, dropped?)" % (configs,))
-    res.floor("clients_observed", res.evaluations, 15 * len(configs) - 15 * res.inconclusive)
+    res.floor("clients_observed", res.evaluations, 17 * len(configs) - 17 * res.inconclusive)
     res.floor("events_observed", res.extra.get("events_observed", 0), 100)
     res.assumptions = ["minute-scale timeouts (the defaults 120/20 s) run the same code with other constants and are not exercised",
                        "wall-clock verdicts use a slack of 1 s plus the harness's own measured scheduling lag"]
